@@ -249,6 +249,8 @@ impl<S: Clone + Debug> SymbolTable<S> {
         path: I,
     ) -> Vec<QueryTraversalStep> {
         let path = path.into();
+        #[cfg(mos_verif)]
+        crate::codegen::verif_hooks::lookup_tick();
         log::trace!(
             "Getting query traversal steps for path '{}' with parent '{:?}'",
             &path,
